@@ -21,12 +21,13 @@ def main():
     ap.add_argument('--seed', default='1')
     a = ap.parse_args()
     man = json.loads((HERE / 'MANIFEST.json').read_text())
-    only = set(filter(None, a.only.split(',')))
+    only = list(filter(None, a.only.split(',')))
     bad = 0
-    for c in man['checks']:
+    checks = man['checks']
+    if only:      # in the order given
+        checks = sorted((c for c in checks if c['property_id'] in only), key=lambda c: only.index(c['property_id']))
+    for c in checks:
         pid = c['property_id']
-        if only and pid not in only:
-            continue
         t0 = time.time()
         env = dict(os.environ, VERIF_SEED=a.seed, VERIF_TIER=a.tier, VERIF_JOBS=a.jobs)
         cmd = c['quick_cmd'] if a.tier == 'quick' else c['thorough_cmd']
